@@ -65,7 +65,7 @@ try:
     meta["checks"] = {}
     for c in checks:
         t0 = time.time()
-        p = subprocess.run(["/verif/check", c, "--tier", a.tier], env=dict(os.environ, VERIF_REPO=wt), stdout=subprocess.PIPE, stderr=subprocess.STDOUT, text=True, timeout=7200)
+        p = subprocess.run(["/verif/check", c, "--tier", a.tier], env=dict(os.environ, VERIF_REPO=wt, VERIF_EVIDENCE_DIR="/verif/_build/seed_evidence", VERIF_REPLAY_DIR="/verif/_build/seed_replays"), stdout=subprocess.PIPE, stderr=subprocess.STDOUT, text=True, timeout=7200)
         viol = [l for l in p.stdout.splitlines() if l.startswith("VIOLATION")]
         what = [l for l in p.stdout.splitlines() if l.startswith("# ")]
         meta["checks"][c] = {"rc": p.returncode, "violations": len(viol), "first": (what[0][:300] if what else None),
